@@ -4,6 +4,11 @@ import Dnp3.Proofs.C02Static
 import Dnp3.Props.DbComponent
 import Dnp3.Proofs.C02Session
 import Dnp3.Proofs.C02Overflow
+import Dnp3.Proofs.C02Reach
+import Dnp3.Proofs.C02Series
+import Dnp3.Proofs.C02Pair
+import Dnp3.Proofs.C02Events
+import Dnp3.Proofs.C02EventsMaster
 /-!
 # C02 — end-to-end measurement integrity: the part that is provable about the models
 
@@ -36,20 +41,37 @@ models (`Dnp3.Model.MasterSession`, `Dnp3.Model.Outstation`, `Dnp3.Model.Databas
      selected cell)` of existing points of the matching type) and
      `outstation_unsolicited_writes_only_buffer_events` (a non-null unsolicited response = header +
      `writeUnsolicited` octets = encodings of a prefix of the buffer's records of the enabled classes).
-     NOT covered at session level: the later fragments of a series (`solWait` / deferred READ call
-     the same `formatReadResponse`; the database theorems `series_conserves`,
-     `series_covers_exactly_once`, `series_is_snapshot_partial` apply to them) — D12 lives there.
+     The later fragments of a series: `step_confirm` (§ series) is `Outstation.step` on the CONFIRM of a non-final
+     fragment (exact outputs: header + `writeResponse` octets of the database after `clearWritten`); the deferred
+     READ path calls the same `formatReadResponse` and is not covered at session level; the database theorems `series_conserves`,
+     `series_covers_exactly_once`, `series_is_snapshot_partial` apply to all of them — D12 lives there.
 (ii) `class0_response_delivers_database_partial`: parser ∘ encoder round trip for a complete
      class-0 response of an idle database of the `pair` engine (binary inputs with static g1v2, analog
-     inputs with g30v1, no point of the other six types, both enabled in `ClassZeroConfig` — an invariant
-     of these databases: `class0_database_hypotheses_reachable`): the handler gets exactly one call per run of consecutive
-     indices, binaries then analogs, carrying `(index, wire octets of the CURRENT value)` of every
-     point exactly once, ascending.  General in the indices (< 65536): `encodeStatic` only ever
-     writes qualifier 0x01, so 0x00 does not arise.
-     `quiescent_class0_poll_converges_partial`: the same through both session models for the
-     single-fragment case: `handleRequestFromIdle` on READ g60v1 transmits `[ctrl, 0x81, iin1, iin2]
-     ++ objs`, no confirm requested; `Master.onFragment` in `waitRead` on that fragment delivers
-     `deliverBegin`, exactly those calls, `deliverEnd`, and completes the task.
+     inputs with g30v1, no point of the other six types, both enabled in `ClassZeroConfig`); the handler gets
+     exactly one call per run of consecutive indices, binaries then analogs, carrying `(index, wire octets of
+     the CURRENT value)` of every point exactly once, ascending.
+     `class0_response_delivers_database` (§ reachable pair states): the same with ALL database hypotheses
+     DERIVED for the outstation database of every pair state reachable by ops that add binary / analog inputs
+     only (`Pair.ReachableVia AddsBinAn`, `class0_database_hypotheses_reachable_pair`; `Pair.Reachable` = over
+     any inputs; `reachable_pair_outstation`: the outstation component is `Outstation.Reachable`).  What is left
+     as hypothesis there is what "complete response of an idle database" means: no READ in progress, no record
+     `Selected`, the response fits.
+     `quiescent_class0_poll_converges_partial`: the single-fragment case through both handler functions (kept).
+     MULTI-FRAGMENT, ANY NUMBER OF FRAGMENTS (§ series): `class0_series_converges` /
+     `reachable_series_converges_partial` compose `Outstation.step` and `Master.step` over an IDEAL WIRE
+     (`Exchange`: every transmission reaches the peer, in order, before anything else happens): the request leg
+     (`step_read_first`), `n` rounds fragment → `deliverBegin, calls, deliverEnd, CONFIRM` → next fragment
+     (`step_read_nonfinal`, `step_confirm`: exact outputs), the final fragment (`Master.step`: the delivery bracket,
+     then only outputs that are neither deliveries nor confirms), and the contents: the items of ALL handler calls
+     of ALL fragments, concatenated = `(index, octets of the CURRENT value)` of every binary input, then every
+     analog input, each exactly once, ascending (database side: `series_objects`, `class0_pending`).  Requests
+     covered: READ g60v1, and the integrity poll g60v2/3/4/1 on an empty event buffer.
+     STILL MISSING for the full pair-model statement (why `_partial`): (1) the ideal wire is assumed, not derived
+     from `Pair.step` (relay delays / holds, `pump` order, timers: `wire_is_fifo` / `wire_invariant` give order and
+     provenance, not timeliness); (2) quiescence of the outstation session (idle, no READ in progress, every record
+     `Unselected`, no broadcast to report) is a hypothesis, not derived from "both endpoints idle and the queues
+     empty"; (3) the master's request leg (task start → `waitRead`) is not composed; (4) events in the same poll
+     (class 1-3 headers with a non-empty buffer) need the parser round trip for g2 / g32 event objects.
 (iii) `cut_loses_only_in_flight`: the result of `cut` is independent of the queue contents; both
      endpoints go through session end / restart.
 
@@ -63,18 +85,29 @@ models (`Dnp3.Model.MasterSession`, `Dnp3.Model.Outstation`, `Dnp3.Model.Databas
      outstation clears the indication with the confirm of a non-final fragment, so it may be carried by
      non-final fragments only (trace counter `c02_iin23_only_in_nonfinal_fragments_*`).
 
+(v)  events (§ events): `release_needs_awaited_confirm` (an `event_cleared` is emitted only at a confirm point of
+     the step: the fragment is a CONFIRM with exactly the awaited UNS bit / sequence number, and the id is that of a
+     `Written` record), `master_confirm_means_accepted`, `master_step_confirms`, `read_confirm_delivered` (a
+     solicited CONFIRM of a READ is emitted only after the delivery bracket of the accepted fragment, all its
+     parsed headers delivered).  "EVERY EVENT NOT REPORTED AS DISCARDED REACHES THE HANDLER AT LEAST ONCE" IS
+     FALSE OF THE PAIR MODEL: `events_at_least_once_counterexample` (D32, kernel-checked): after sixteen READs
+     whose answers are stalled the 4-bit sequence number wraps, the master accepts the OLD answer with sequence
+     number 0 and its CONFIRM releases the events of the NEW one.
+
 LEFT TO THE MONITORS: everything that needs the history of the real tasks — convergence after
 arbitrary interleavings of updates / cuts (retries, unsolicited series, event re-transmission after
-a lost confirm), "was the value at some moment" across fragments of a multi-fragment series with
-updates in between (`series_is_snapshot_partial` covers the database side; D12 is the known
-exception), "every non-discarded event reaches the handler at least once", reported TIME of static
-values (g1v2 / g30v1 carry none), and the link / transport layers (C06, C08).
+a lost confirm), the relay legs of `Pair.step` around the series of (ii) (delays, holds, timers), "was the value
+at some moment" across fragments of a multi-fragment series with updates in between
+(`series_is_snapshot_partial` covers the database side; D12 is the known exception), reported TIME of static
+values (g1v2 / g30v1 carry none), and the link / transport layers (C06, C08).  The clause "every non-discarded
+event reaches the handler at least once" is false without a freshness assumption on confirms (D32).
 
 `rechunking_invisible`: by construction — `Pair.step` has no chunk parameter: an item reaches the
 receiver when its last octet is forwarded (`forceDeliver` / `popCovered`), and the endpoints only
 ever see whole fragments; there is nothing to state.
 
-No model behaviour falsified a statement attempted here.  Two things to know when reading (i.b):
+One statement of the property IS falsified by the models: the "at least once" clause (D32, see (v)).  Two things to
+know when reading (i.b):
 `Pair.step .cut` does NOT enqueue what the master transmits while handling `eof` (lost, as on the
 real socket), and `.script` does not enqueue the (empty) outstation output; both are on the safe
 side of "delivered ⊆ transmitted".
@@ -703,4 +736,507 @@ example :
       (Master.step ovfDemo (.rx 1024 1 ([0xC0] ++ ovfFrag.drop 1))).2 := by
   decide +kernel
 
+end Dnp3.Props.C02
+
+/-! # reachable pair states, the multi-fragment series, events -/
+namespace Dnp3.Props.C02
+section Reach
+open Dnp3 Dnp3.DbM Dnp3.DbProofs Dnp3.Pair Dnp3.Proofs.C02Static Dnp3.Proofs.C02Reach Dnp3.Proofs.C02Series
+open Dnp3.Proofs.C02SeriesMaster Dnp3.Proofs.C02Session Dnp3.Proofs.Skel Dnp3.Proofs.C03 Dnp3.Proofs.C02Events
+
+/-! ## § reachable pair states: the class-0 database hypotheses are derived
+
+`Pair.ReachableVia ok cfg… s`: `s` is reached from `(Pair.start cfg…).1` by `Pair.step` over inputs satisfying `ok`;
+`Pair.Reachable` = `ReachableVia (fun _ => True)`; `AddsBinAn`: `add` / `addMany` ops add binary / analog inputs
+only, every other op is unrestricted (`inject`, `cut`, `txn`, … included). -/
+
+/-- the outstation component of a reachable pair state (ANY inputs) is a state of an outstation trace from
+    construction, under the environment the pair was started with -/
+theorem reachable_pair_outstation {ocfg : OCfg} {evMax : Nat} {env : OEnv} {txSize : Nat} {acfg : Master.ACfg}
+    {base : Option Nat} {dm2o do2m : Nat} {s : PState}
+    (hr : Pair.Reachable ocfg evMax env txSize acfg base dm2o do2m s) :
+    s.env = env ∧ Outstation.Reachable ocfg evMax env s.o :=
+  reachable_outstation hr
+
+/-- five points added as binary / analog inputs, two of them updated, 100 ms of time -/
+def exPairOps : List PInput := [.add .binary 0 1, .add .binary 1 1, .add .binary 5 0, .add .analog 2 2,
+  .txn [.bin 1 true 1 7, .an 2 (-5) 1 8], .tick 100]
+/-- 20-octet solicited buffer, ten events per type, the master's automatic tasks switched off -/
+def exPairStart : PState := (Pair.start { sol := 20 } (legacyEv 10) {} 2048 { dis := 0, int := 0, en := 0 } none 0 0).1
+def exPair : PState := (Pair.run exPairStart exPairOps).1
+
+/-- `exPairOps` satisfy `AddsBinAn`, so the state they lead to is reachable in that sense -/
+theorem exPair_reachable :
+    ReachableVia AddsBinAn { sol := 20 } (legacyEv 10) {} 2048 { dis := 0, int := 0, en := 0 } none 0 0 exPair := by
+  refine ReachableVia.run exPairOps .start ?_
+  intro op h
+  simp only [exPairOps, List.mem_cons, List.not_mem_nil, or_false] at h
+  rcases h with rfl | rfl | rfl | rfl | rfl | rfl <;> first | exact .inl rfl | exact .inr rfl | trivial
+
+example : Pair.Reachable { sol := 20 } (legacyEv 10) {} 2048 { dis := 0, int := 0, en := 0 } none 0 0 exPair :=
+  exPair_reachable.mono (fun _ _ => trivial)
+
+/-- **the database hypotheses of the class-0 theorems hold of the outstation database of every pair state reachable
+    by ops that add binary / analog inputs only**: sorted maps, binary inputs with static variation g1v2, analog
+    inputs with g30v1, no point of the other six types, both enabled in `ClassZeroConfig`, room for the two class-0
+    selections, every index a u16 — whatever updates, requests, responses, confirms, cuts, injected fragments and
+    time steps the run contained -/
+theorem class0_database_hypotheses_reachable_pair {ocfg : OCfg} {n : Nat} {env : OEnv} {txSize : Nat} {acfg : Master.ACfg}
+    {base : Option Nat} {dm2o do2m : Nat} {s : PState}
+    (hr : ReachableVia AddsBinAn ocfg (legacyEv n) env txSize acfg base dm2o do2m s) :
+    let db := s.o.db
+    StaticSorted db ∧ (∀ p ∈ db.bins, p.2.svar = 2) ∧ (∀ p ∈ db.ans, p.2.svar = 1) ∧
+    (∀ t, t ≠ .binary → t ≠ .analog → db.map t = []) ∧ db.czero.binary = true ∧ db.czero.analog = true ∧
+    2 ≤ db.selCap ∧ (∀ p ∈ db.bins, p.1 < 65536) ∧ (∀ p ∈ db.ans, p.1 < 65536) := by
+  obtain ⟨h1, h2, h3, h4⟩ := reachable_class0Db hr
+  exact ⟨h1, h2.sv, h2.sa, h2.empty, h2.czb, h2.cza, h3, h4 .binary, h4 .analog⟩
+
+/-- the exact condition on the inputs: `add` / `addMany` of binary / analog inputs; anything else is allowed -/
+example : AddsBinAn (.add .analog 7 2) ∧ AddsBinAn (.inject true 1 1024 [0xC0, 0]) ∧ AddsBinAn .cut ∧
+    ¬ AddsBinAn (.add .counter 0 1) := ⟨.inr rfl, trivial, trivial, by intro h; rcases h with h | h <;> cases h⟩
+
+/-- the outstation component is a state of an outstation trace from construction, under the environment the
+    pair was started with -/
+theorem reachable_outstation_restated {ocfg : OCfg} {evMax : Nat} {env : OEnv} {txSize : Nat} {acfg : Master.ACfg}
+    {base : Option Nat} {dm2o do2m : Nat} {s : PState}
+    (hr : Pair.Reachable ocfg evMax env txSize acfg base dm2o do2m s) :
+    s.env = env ∧ Outstation.Reachable ocfg evMax env s.o :=
+  @Dnp3.Proofs.C02Reach.reachable_outstation ocfg evMax env txSize acfg base dm2o do2m s hr
+
+/-- **one step of the outstation session model keeps a database invariant**: any input; for an `add` input
+    the invariant has to be kept by that `Db.add` -/
+theorem step_dbInv {I : Db → Prop} (K : DbInv I) (env : OEnv) (s : OState) (inp : OInput)
+    (hadd : ∀ t idx cls, inp = .add t idx cls → I s.db → I (s.db.add t idx cls).1)
+    (h : I s.db) : I (Outstation.step env s inp).1.db :=
+  @Dnp3.Proofs.C02Reach.step_dbInv I K env s inp hadd h
+
+/-- **one step of the outstation session model keeps the class-0 hypotheses**, whatever the input, as long
+    as it does not add a point of another type than binary / analog input -/
+theorem step_class0Db (env : OEnv) (s : OState) (inp : OInput) (hinp : OAddsBinAn inp) (h : Class0Db s.db) :
+    Class0Db (Outstation.step env s inp).1.db :=
+  @Dnp3.Proofs.C02Reach.step_class0Db env s inp hinp h
+
+
+/-- the predicate `Class0Db` (sorted, `PairDb`, `2 ≤ selCap`, u16 indices) is such an invariant -/
+example : DbInv Class0Db := class0Db_inv
+
+/-- `class0_response_delivers_database`: `class0_response_delivers_database_partial` for the outstation database of
+    a REACHABLE pair state — the five database hypotheses, `StaticSorted`, `2 ≤ selCap` and the index bounds are
+    derived (`class0_database_hypotheses_reachable_pair`).  What remains is the situation the statement is about:
+    the database is idle (`hq`: no READ in progress; `hev`: no record `Selected`) and the response is complete
+    (`hc`). -/
+theorem class0_response_delivers_database {ocfg : OCfg} {n : Nat} {env : OEnv} {txSize : Nat} {acfg : Master.ACfg}
+    {base : Option Nat} {dm2o do2m : Nat} {s : PState}
+    (hr : ReachableVia AddsBinAn ocfg (legacyEv n) env txSize acfg base dm2o do2m s)
+    (cap : Nat) (who : Master.Who) (a : Master.Acc)
+    (hq : s.o.db.queue = []) (hev : ∀ r ∈ s.o.db.events, r.st ≠ .selected)
+    (hc : (s.o.db.selectClass0.1.writeResponse cap).2.2.2 = true) :
+    let db := s.o.db
+    let objs := (db.selectClass0.1.writeResponse cap).2.1
+    let B := objsOf .binary db.bins
+    let A := objsOf .analog db.ans
+    let calls := (runs B).map (runCall who) ++ (runs A).map (runCall who)
+    ∃ hdrs, Master.parseRespObjects objs.length objs = some hdrs ∧
+      hdrs.foldl (fun a h => Master.deliverHeader a who h) a = (a.1, a.2 ++ calls) ∧
+      calls.flatMap Dnp3.Props.C02.callItems =
+        db.bins.map (fun p => (p.1, [p.2.current.wire .binary])) ++
+        db.ans.map (fun p => (p.1, stObjBytes { idx := p.1, g := 30, v := 1, m := p.2.current })) ∧
+      (∀ r ∈ runs B ++ runs A, RunOK r) := by
+  obtain ⟨h1, h2, h3, h4, h5, h6, h7, h8, h9⟩ := class0_database_hypotheses_reachable_pair hr
+  exact class0_response_delivers_database_partial s.o.db cap who a h1 hq h7 hev h8 h9 h2 h3 h4 h5 h6 hc
+
+/-- the remaining hypotheses hold of `exPair` (five points, two events buffered `Unselected`, 100 octets of room) -/
+example : exPair.o.db.queue = [] ∧ (∀ r ∈ exPair.o.db.events, r.st ≠ .selected) ∧
+    (exPair.o.db.selectClass0.1.writeResponse 100).2.2.2 = true ∧ exPair.o.db.events.length = 2 := by
+  refine ⟨by decide +kernel, by decide +kernel, by decide +kernel, by decide +kernel⟩
+
+/-! ## § series: a READ answered in any number of fragments -/
+
+/-- **the static objects of all fragments of a series that ends with fragment `n - 1`, concatenated, are exactly
+    the objects the request selected** -/
+theorem series_objects (cap : Nat) (db1 : Db) (hs : StaticSorted db1) (hu : AllUnsel db1) (n : Nat)
+    (hend : (fragW cap db1 n).2.2.2 = true) :
+    (List.range (n + 1)).flatMap (fun j => (fragObjs cap db1 j).flatten) = pending db1 db1.queue :=
+  @Dnp3.Proofs.C02Series.series_objects cap db1 hs hu n hend
+
+/-- the selection of a class-0 READ on an idle `pair` database -/
+theorem class0_pending (db : Db) (hc : Class0Db db) (hq : db.queue = []) (hu : AllUnsel db) :
+    pending db.selectClass0.1 db.selectClass0.1.queue = objsOf .binary db.bins ++ objsOf .analog db.ans ∧
+    StaticSorted db.selectClass0.1 ∧ AllUnsel db.selectClass0.1 ∧ Class0Db db.selectClass0.1 :=
+  @Dnp3.Proofs.C02Series.class0_pending db hc hq hu
+
+/-- **one step of the outstation session model on a READ request received while idle**: the selections are
+    made, the first fragment is formatted from the database and transmitted -/
+theorem step_read_first (env : OEnv) (cfg : OCfg) (s : OState) (next : NextIdle) (src dst : Nat) (req : List Nat)
+    (ctrl : AppCtrl) (hs : List ObjHdr) (raw : List Nat)
+    (hmode : s.mode = .idle next) (hcfg : s.cfg = cfg)
+    (hbuf : cfg.sol ≤ s.solBuf.length) (h4 : 4 ≤ cfg.sol) (hnb : s.lastBroadcast = none)
+    (hcnt : CountersExact s.db)
+    (hdst : dst = env.outstation) (hsrc : src < 0xFFF0) (hne : req.isEmpty = false) (hrx : req.length ≤ env.rx)
+    (hmaster : cfg.anymaster = true ∨ src = cfg.master)
+    (hreq : parseRequest req = .request ctrl 1 (.ok hs) raw) :
+    ∃ (i1 i2 : Nat) (s' : OState) (rest : List OOut), i2 &&& 7 = 0 ∧
+      Outstation.step env s (.rx src dst req) =
+        (s', [.tx src ([(⟨true, ((dbSelectAll s.db hs).1.writeResponse (cfg.sol - 4)).2.2.2,
+             ((dbSelectAll s.db hs).1.writeResponse (cfg.sol - 4)).2.2.1 || !((dbSelectAll s.db hs).1.writeResponse (cfg.sol - 4)).2.2.2,
+             false, ctrl.seq⟩ : AppCtrl).toNat, 0x81, i1, (dbSelectAll s.db hs).2 ||| i2] ++
+             ((dbSelectAll s.db hs).1.writeResponse (cfg.sol - 4)).2.1)] ++ rest) ∧
+      (((dbSelectAll s.db hs).1.writeResponse (cfg.sol - 4)).2.2.2 = false →
+        rest = [.cb (.solWait ctrl.seq)] ∧ OWait cfg s' ctrl.seq ((dbSelectAll s.db hs).1.writeResponse (cfg.sol - 4)).1) :=
+  @Dnp3.Proofs.C02Series.step_read_first env cfg s next src dst req ctrl hs raw hmode hcfg hbuf h4 hnb hcnt hdst hsrc hne hrx hmaster hreq
+
+/-- **one step of the outstation session model on the CONFIRM it awaits**: the events written are released,
+    the next fragment is formatted from the database and transmitted -/
+theorem step_confirm (env : OEnv) (cfg : OCfg) (s : OState) (e : Nat) (db : Db) (src dst : Nat)
+    (hw : OWait cfg s e db) (he : e < 16)
+    (hdst : dst = env.outstation) (hsrc : src < 0xFFF0) (hrx : 2 ≤ env.rx)
+    (hmaster : cfg.anymaster = true ∨ src = cfg.master) (h4 : 4 ≤ cfg.sol)
+    (c1 c2 c3 : Bool) (hu : (db.clearWritten.1.writeResponse (cfg.sol - 4)).1.unwrittenClasses = some (c1, c2, c3)) :
+    ∃ (i1 i2 : Nat) (s' : OState) (rest : List OOut), i2 &&& 7 = 0 ∧
+      Outstation.step env s (.rx src dst [0xC0 + e, 0]) =
+        (s', [.cb (.solConfirmed e), .cb .beginConfirm] ++ db.clearWritten.2.1.map (fun id => OOut.cb (.eventCleared id)) ++
+          [.cb (.endConfirm db.clearWritten.2.2.1 db.clearWritten.2.2.2.1 db.clearWritten.2.2.2.2),
+           .tx src ([(⟨false, (db.clearWritten.1.writeResponse (cfg.sol - 4)).2.2.2,
+               (db.clearWritten.1.writeResponse (cfg.sol - 4)).2.2.1 || !(db.clearWritten.1.writeResponse (cfg.sol - 4)).2.2.2,
+               false, seq4Next e⟩ : AppCtrl).toNat, 0x81, i1, i2] ++ (db.clearWritten.1.writeResponse (cfg.sol - 4)).2.1)] ++ rest) ∧
+      ((db.clearWritten.1.writeResponse (cfg.sol - 4)).2.2.2 = false →
+        rest = [] ∧ OWait cfg s' (seq4Next e) (db.clearWritten.1.writeResponse (cfg.sol - 4)).1) :=
+  @Dnp3.Proofs.C02Series.step_confirm env cfg s e db src dst hw he hdst hsrc hrx hmaster h4 c1 c2 c3 hu
+
+/-- **a class-0 READ answered in ANY number of fragments converges** — the two session models composed over an
+    ideal wire (every transmission reaches the peer, in order, before anything else happens: the glue (c) that
+    `wire_is_fifo` / `wire_invariant` provide in the pair model, plus "no timer fires, no update, no other
+    input", is what this statement assumes instead of deriving it from `Pair.step`).
+
+    Outstation session state `so`: idle, no broadcast to report, buffers as configured, a `pair`
+    database (`Class0Db`) with exact counters, no READ in progress (`queue = []`), every event record
+    `Unselected`.  The request `req` is a READ whose headers select what `select_class_zero` selects
+    (`hsel`; e.g. `[60, 1, 6]`, or the integrity poll `60,2 60,3 60,4 60,1` on an empty event buffer).
+    Master session state `sm`: waiting for the first fragment of the answer to that request (`MWait … true`).
+    The answer takes `n + 1` fragments (`hnf`, `hfin`: the database's `write_response_headers` is complete
+    for the first time at fragment `n`; capacity `cfg.sol - 4`).  Then there are states and IIN octets with:
+    1. `Outstation.step` on the request transmits fragment 0 first (FIR, FIN iff `n = 0`, CON iff not FIN);
+    2. `n` rounds of `Exchange`: `Master.step` on fragment `k` emits EXACTLY `deliverBegin`, the calls
+       `fragCalls (fragObjs k)`, `deliverEnd`, CONFIRM; `Outstation.step` on that CONFIRM transmits fragment `k + 1`
+       first;
+    3. `Master.step` on fragment `n` emits `deliverBegin`, `fragCalls (fragObjs n)`, `deliverEnd` and then only
+       outputs that are neither deliveries nor CONFIRMs (`QuietOut`; the READ task has ended);
+    4. the items of all handler calls of all fragments, concatenated, are `(index, wire octets of the CURRENT
+       value)` of every binary input, then every analog input — each point exactly once, ascending. -/
+theorem class0_series_converges (env : OEnv) (cfg : OCfg) (so : OState) (next : NextIdle) (sm : Master.MState)
+    (t : Master.ReadTask) (req : List Nat) (ctrl : AppCtrl) (hs : List ObjHdr) (raw : List Nat) (n : Nat)
+    (hmode : so.mode = .idle next) (hcfg : so.cfg = cfg)
+    (hbuf : cfg.sol ≤ so.solBuf.length) (h4 : 4 ≤ cfg.sol) (hmax : cfg.sol ≤ 2048) (hnb : so.lastBroadcast = none)
+    (hcnt : CountersExact so.db) (hc0 : Class0Db so.db) (hq : so.db.queue = []) (hu : AllUnsel so.db)
+    (haddr : env.outstation = outstationAddr) (hrx : 2 ≤ env.rx) (hlen : req.length ≤ env.rx)
+    (hmaster : cfg.anymaster = true ∨ masterAddr = cfg.master)
+    (hreq : parseRequest req = .request ctrl 1 (.ok hs) raw) (hseq : ctrl.seq < 16)
+    (hsel : dbSelectAll so.db hs = (so.db.selectClass0.1, 0))
+    (hm : MWait sm outstationAddr t ctrl.seq true)
+    (hnf : ∀ k, k < n → (fragW (cfg.sol - 4) so.db.selectClass0.1 k).2.2.2 = false)
+    (hfin : (fragW (cfg.sol - 4) so.db.selectClass0.1 n).2.2.2 = true) :
+    let db1 := so.db.selectClass0.1
+    let who := Master.whoOf outstationAddr t
+    let rt := Master.rtOf t
+    let calls := fun k => fragCalls who (fragObjs (cfg.sol - 4) db1 k)
+    ∃ (o0 oE : OState) (mE mF : Master.MState) (rest0 : List OOut) (i1 i2 j1 j2 c : Nat) (l : List Master.MOut),
+      Outstation.step env so (.rx masterAddr outstationAddr req) =
+        (o0, [.tx masterAddr (fragOct true (decide (n = 0)) ctrl.seq i1 i2 (fragW (cfg.sol - 4) db1 0).2.1)] ++ rest0) ∧
+      Exchange env who rt o0 sm (fragOct true (decide (n = 0)) ctrl.seq i1 i2 (fragW (cfg.sol - 4) db1 0).2.1) ctrl.seq
+        ((List.range n).map calls) oE mE
+        (fragOct (decide (n = 0)) true (seqAt ctrl.seq n) j1 j2 (fragW (cfg.sol - 4) db1 n).2.1) (seqAt ctrl.seq n) ∧
+      Master.step mE (.rx outstationAddr masterAddr
+          (fragOct (decide (n = 0)) true (seqAt ctrl.seq n) j1 j2 (fragW (cfg.sol - 4) db1 n).2.1)) =
+        (mF, [.deliverBegin who rt c j1 j2] ++ calls n ++ [.deliverEnd who rt] ++ l) ∧
+      (∀ o ∈ l, Dnp3.Proofs.C02MasterQuiet.QuietOut o) ∧
+      (List.range (n + 1)).flatMap (fun k => (calls k).flatMap callItems) =
+        so.db.bins.map (fun p => (p.1, [p.2.current.wire .binary])) ++
+        so.db.ans.map (fun p => (p.1, stObjBytes { idx := p.1, g := 30, v := 1, m := p.2.current })) :=
+  @Dnp3.Proofs.C02Series.class0_series_converges env cfg so next sm t req ctrl hs raw n hmode hcfg hbuf h4 hmax hnb hcnt hc0 hq hu haddr hrx hlen hmaster hreq hseq hsel hm hnf hfin
+
+
+/-- the hypotheses of `step_read_first` hold for `exSo` and READ g60v1 with sequence number 3; its conclusion
+    (the answer is incomplete after 16 octets) yields a state satisfying the hypothesis `OWait` of `step_confirm` -/
+example : ∃ s', OWait exCfg s' 3 ((dbSelectAll exSo.db [class0Hdr]).1.writeResponse (exCfg.sol - 4)).1 := by
+  obtain ⟨i1, i2, s', rest, _, _, h⟩ := step_read_first {} exCfg exSo .untilEvent masterAddr outstationAddr
+    [0xC0 + 3, 1, 60, 1, 6] ⟨true, true, false, false, 3⟩ [class0Hdr] [60, 1, 6]
+    rfl rfl (by decide) (by decide) rfl (counters_run _ _ (new_counters _ _)) rfl (by decide) rfl (by decide) (.inr rfl)
+    (parseRequest_class0 3 (by decide))
+  exact ⟨s', (h (by decide +kernel)).2⟩
+
+/-- `exSo`, `exSm`, READ g60v1 with sequence number 3 and `n = 2` satisfy every hypothesis of `class0_series_converges`
+    (the `example` below `Dnp3.Proofs.C02Series.exOps_ok`); the answer takes three fragments:
+    binaries 0-1 / binary 5 / analog 2 -/
+example : (List.range 3).map (fun k => (fragObjs (exCfg.sol - 4) exSo.db.selectClass0.1 k).flatten.map (fun o => (o.g, o.idx))) =
+    [[(1, 0), (1, 1)], [(1, 5)], [(30, 2)]] := by decide +kernel
+
+/-- the two requests covered: READ g60v1, and the master's integrity poll on an empty event buffer -/
+example (db : Db) (hc0 : Class0Db db) (hq : db.queue = []) :
+    dbSelectAll db [class0Hdr] = (db.selectClass0.1, 0) ∧
+    (db.events = [] → dbSelectAll db integrityHdrs = (db.selectClass0.1, 0)) ∧
+    (∀ e, e < 16 → parseRequest [0xC0 + e, 1, 60, 1, 6] = .request ⟨true, true, false, false, e⟩ 1 (.ok [class0Hdr]) [60, 1, 6]) ∧
+    (∀ e, e < 16 → parseRequest ([0xC0 + e, 1] ++ Master.classHeaders 15) =
+      .request ⟨true, true, false, false, e⟩ 1 (.ok integrityHdrs) (Master.classHeaders 15)) :=
+  ⟨sel_class0 db hc0 hq, sel_integrity db hc0 hq, parseRequest_class0, parseRequest_integrity⟩
+
+/-- what reachability gives about the outstation component -/
+theorem reachable_outstation_facts {ocfg : OCfg} {n : Nat} {env : OEnv} {txSize : Nat} {acfg : Master.ACfg}
+    {base : Option Nat} {dm2o do2m : Nat} {s : PState}
+    (hr : ReachableVia AddsBinAn ocfg (legacyEv n) env txSize acfg base dm2o do2m s)
+    (hsol : 10 ≤ ocfg.sol) (hunsol : 4 ≤ ocfg.unsol) :
+    s.env = env ∧ s.o.cfg = ocfg ∧ s.o.solBuf.length = ocfg.sol ∧ s.o.mode ≠ .dead ∧ CountersExact s.o.db ∧
+    Class0Db s.o.db :=
+  @Dnp3.Proofs.C02Pair.reachable_outstation_facts ocfg n env txSize acfg base dm2o do2m s hr hsol hunsol
+
+/-- **the multi-fragment class-0 / integrity poll from a reachable pair state** (ideal wire): see
+    `class0_series_converges`; `s` is any pair state reachable from `Pair.start …` by ops that add binary / analog
+    inputs only, whose outstation is idle with a quiescent database, and whose master (`sm`: `s.m` with the clock
+    the relay sets) waits for the first fragment of the answer to the request `req` -/
+theorem reachable_series_converges_partial {ocfg : OCfg} {nEv : Nat} {env : OEnv} {txSize : Nat} {acfg : Master.ACfg}
+    {base : Option Nat} {dm2o do2m : Nat} {s : PState}
+    (hr : ReachableVia AddsBinAn ocfg (legacyEv nEv) env txSize acfg base dm2o do2m s)
+    (hsol : 10 ≤ ocfg.sol) (hmax : ocfg.sol ≤ 2048) (hunsol : 4 ≤ ocfg.unsol)
+    (haddr : env.outstation = outstationAddr) (hrx : 2 ≤ env.rx)
+    (hmaster : ocfg.anymaster = true ∨ masterAddr = ocfg.master)
+    (next : NextIdle) (hmode : s.o.mode = .idle next) (hnb : s.o.lastBroadcast = none)
+    (hq : s.o.db.queue = []) (hu : AllUnsel s.o.db)
+    (sm : Master.MState) (t : Master.ReadTask) (req : List Nat) (ctrl : AppCtrl) (hs : List ObjHdr) (raw : List Nat) (n : Nat)
+    (hlen : req.length ≤ env.rx)
+    (hreq : parseRequest req = .request ctrl 1 (.ok hs) raw) (hseq : ctrl.seq < 16)
+    (hsel : dbSelectAll s.o.db hs = (s.o.db.selectClass0.1, 0))
+    (hm : MWait sm outstationAddr t ctrl.seq true)
+    (hnf : ∀ k, k < n → (fragW (ocfg.sol - 4) s.o.db.selectClass0.1 k).2.2.2 = false)
+    (hfin : (fragW (ocfg.sol - 4) s.o.db.selectClass0.1 n).2.2.2 = true) :
+    let db1 := s.o.db.selectClass0.1
+    let who := Master.whoOf outstationAddr t
+    let rt := Master.rtOf t
+    let calls := fun k => fragCalls who (fragObjs (ocfg.sol - 4) db1 k)
+    ∃ (o0 oE : OState) (mE mF : Master.MState) (rest0 : List OOut) (i1 i2 j1 j2 c : Nat) (l : List Master.MOut),
+      Outstation.step s.env s.o (.rx masterAddr outstationAddr req) =
+        (o0, [.tx masterAddr (fragOct true (decide (n = 0)) ctrl.seq i1 i2 (fragW (ocfg.sol - 4) db1 0).2.1)] ++ rest0) ∧
+      Exchange s.env who rt o0 sm (fragOct true (decide (n = 0)) ctrl.seq i1 i2 (fragW (ocfg.sol - 4) db1 0).2.1) ctrl.seq
+        ((List.range n).map calls) oE mE
+        (fragOct (decide (n = 0)) true (seqAt ctrl.seq n) j1 j2 (fragW (ocfg.sol - 4) db1 n).2.1) (seqAt ctrl.seq n) ∧
+      Master.step mE (.rx outstationAddr masterAddr
+          (fragOct (decide (n = 0)) true (seqAt ctrl.seq n) j1 j2 (fragW (ocfg.sol - 4) db1 n).2.1)) =
+        (mF, [.deliverBegin who rt c j1 j2] ++ calls n ++ [.deliverEnd who rt] ++ l) ∧
+      (∀ o ∈ l, Dnp3.Proofs.C02MasterQuiet.QuietOut o) ∧
+      (List.range (n + 1)).flatMap (fun k => (calls k).flatMap callItems) =
+        s.o.db.bins.map (fun p => (p.1, [p.2.current.wire .binary])) ++
+        s.o.db.ans.map (fun p => (p.1, stObjBytes { idx := p.1, g := 30, v := 1, m := p.2.current })) :=
+  @Dnp3.Proofs.C02Pair.reachable_series_converges ocfg nEv env txSize acfg base dm2o do2m s hr hsol hmax hunsol haddr hrx hmaster next hmode hnb hq hu sm t req ctrl hs raw n hlen hreq hseq hsel hm hnf hfin
+
+
+/-- test for "idle until an event" (`Mode` has no decidable equality) -/
+def modeIsIdleUntilEvent : Mode → Bool
+  | .idle .untilEvent => true
+  | _ => false
+
+theorem of_modeIsIdleUntilEvent {m : Mode} (h : modeIsIdleUntilEvent m = true) : m = .idle .untilEvent := by
+  cases m with
+  | idle n => cases n <;> first | rfl | cases h
+  | _ => cases h
+
+/-- every hypothesis of `reachable_series_converges_partial` holds for the reachable state `exPair` (20-octet
+    solicited buffer: three fragments), the master of `exSm` and READ g60v1 with sequence number 3 -/
+example :
+    10 ≤ ({ sol := 20 } : OCfg).sol ∧ ({ sol := 20 } : OCfg).sol ≤ 2048 ∧ 4 ≤ ({ sol := 20 } : OCfg).unsol ∧
+    ({} : OEnv).outstation = outstationAddr ∧ 2 ≤ ({} : OEnv).rx ∧
+    (({ sol := 20 } : OCfg).anymaster = true ∨ Pair.masterAddr = ({ sol := 20 } : OCfg).master) ∧
+    exPair.o.mode = .idle .untilEvent ∧ exPair.o.lastBroadcast = none ∧ exPair.o.db.queue = [] ∧ AllUnsel exPair.o.db ∧
+    [0xC0 + 3, 1, 60, 1, 6].length ≤ ({} : OEnv).rx ∧
+    dbSelectAll exPair.o.db [class0Hdr] = (exPair.o.db.selectClass0.1, 0) ∧
+    MWait exSm outstationAddr (.integrity 15) 3 true ∧
+    (∀ k, k < 2 → (fragW (20 - 4) exPair.o.db.selectClass0.1 k).2.2.2 = false) ∧
+    (fragW (20 - 4) exPair.o.db.selectClass0.1 2).2.2.2 = true := by
+  have hc0 : Class0Db exPair.o.db := reachable_class0Db exPair_reachable
+  refine ⟨by decide, by decide, by decide, rfl, by decide, .inr rfl, of_modeIsIdleUntilEvent (by decide +kernel), by decide +kernel,
+    by decide +kernel, by unfold AllUnsel; decide +kernel, by decide, sel_class0 _ hc0 (by decide +kernel),
+    ⟨⟨5000, rfl⟩, ⟨_, rfl, rfl⟩, by decide⟩, ?_, by decide +kernel⟩
+  intro k hk
+  have : k = 0 ∨ k = 1 := by omega
+  rcases this with rfl | rfl <;> decide +kernel
+
+/-! ## § events: released only upon the awaited confirm; the at-least-once clause is false (D32) -/
+
+/-
+FULL STATEMENT (FALSE of the pair model, `events_at_least_once_counterexample`): "in every run of the pair model
+from `Pair.start …` without `inject`, if a step releases event id `e` (`event_cleared e` among the outstation's
+outputs) then a fragment carrying record `e` was delivered to the master's handler earlier in the run."
+What holds, link by link (the chain outstation ← wire ← master ← wire ← outstation):
+  1. `release_needs_awaited_confirm` (below): the release happens at a confirm point — the fragment the step looks
+     at is a CONFIRM with exactly the UNS bit and sequence number the session awaits, and `e` is the id of a
+     record `Written` in the database at that point;
+  2. `wire_carries_only_what_was_sent` (i.b): without `inject`, that CONFIRM was transmitted earlier by the master;
+  3. `master_confirm_means_accepted`, `read_confirm_delivered` (§ master): the master transmits a CONFIRM only in a
+     step whose input is a fragment it accepts with CON; for a READ in flight the step's outputs are `deliverBegin`,
+     the handler calls of EVERY parsed header of that fragment, `deliverEnd`, the CONFIRM, then only quiet
+     outputs; for an unsolicited response C15 `unsolicited_confirmed_contents_delivered` (delivered now, or an
+     identical fragment was delivered before);
+  4. `wire_carries_only_what_was_sent` again: that fragment was transmitted earlier by the outstation.
+THE TWO LINKS THAT ARE MISSING, exactly:
+  (L1, no stale confirm) the fragment the master confirmed in 3 is the fragment whose confirm the outstation awaits
+     in 1.  It has the same UNS bit and sequence number, but after a wrap of the 4-bit sequence number it can be an
+     OLDER one (D32); payload equality does not identify a transmission, and the wire items of `Pair` carry no
+     identity, so (L1) is not expressible as a predicate on the group history alone — it is a hypothesis on the two
+     steps of links 1 and 3.  A state predicate at op boundaries ("no CON-flagged fragment / confirm in flight other
+     than the awaited one") does NOT imply it: sixteen requests queued towards the outstation make it open a new
+     series with the same sequence number inside one op.  In the same run the stale fragment with sequence number 1
+     is accepted AND CONFIRMED by the master as the response to its clear-restart WRITE with sequence number 1
+     (`validate_non_read_response` looks at source, sequence number, FIR/FIN and IIN2 only): the cross-task variant.
+  (L2, session invariant) every record that is `Written` is carried by the fragment whose confirm is awaited (the
+     last fragment transmitted in the current series).  Established by each writer from a clean database
+     (`outstation_writes_only_database_values`, `write_marks_prefix`, C03 (b) `reachable_sessClean`), kept by
+     updates / selections (the `Written` set only shrinks during a wait); not proved over `Outstation.step` here.
+-/
+
+/-- **an event is released only upon the confirm the session awaits.**  If one step of the outstation session
+    model (any state `s`, any input) emits `event_cleared id`, then the step ran the session machinery
+    (`StepInit`) on a fragment `pf` (`StepFrag`: for an `rx` input the fragment just received), and at some point
+    `b` of the step (`Reach`) the session was at a confirm point: `pf` is a CONFIRM (function code 0), and either a
+    solicited series awaits exactly its sequence number (UNS clear), or a DATA unsolicited series does (UNS set);
+    and `id` is the id of a record that is `Written` in the database at that point (`clearWritten` releases
+    exactly the `Written` records, `clear_releases_exactly_written`) -/
+theorem release_needs_awaited_confirm (env : OEnv) (s : OState) (inp : OInput) (id : Nat)
+    (hrel : OOut.cb (.eventCleared id) ∈ (Outstation.step env s inp).2) :
+    ∃ pf s0 o0 b, StepInit env s inp pf s0 o0 ∧ StepFrag env s inp pf ∧ Reach pf (s0, o0) b ∧
+      ConfirmPoint pf b ∧ id ∈ (b.1.db.events.filter DbProofs.isWritten).map (·.id) :=
+  @Dnp3.Proofs.C02Events.release_needs_awaited_confirm env s inp id hrel
+
+/-- **D32, kernel-checked.**  The run `d32Ops` from `d32Start` contains no `inject` and no `cut`.
+    Before its last op (the release of the stalled direction) the outstation's event buffer holds the records
+    with ids 0 (binary input 0 = 1) and 1 (binary input 0 = 0), both `Written`: carried by the answer to the 17th
+    READ, which awaits its confirm.  Over the WHOLE run the master's handler receives exactly one `handle_*` call
+    with data: g2v1 index 0, flags 0x81 — event 0.  The last op makes the outstation emit `event_cleared 0` and
+    `event_cleared 1`; afterwards the buffer is empty and no overflow was ever flagged.  Record 1 was released and
+    never delivered. -/
+theorem events_at_least_once_counterexample :
+    let r := Pair.run d32Start.1 d32Ops
+    let r1 := Pair.run d32Start.1 d32Ops.dropLast
+    d32Ops.all (fun op => !isInjectOrCut op) = true ∧
+    r1.1.o.db.events.map (fun e => (e.id, e.index, e.m.value, e.st)) = [(0, 0, 1, .written), (1, 0, 0, .written)] ∧
+    clearedOf (d32Start.2 ++ r1.2.flatten) = [] ∧
+    deliveriesOf (d32Start.2 ++ r.2.flatten) = [.deliverHdr (.assoc 1024) 2 1 0x28 [(0, [0x81])]] ∧
+    clearedOf (d32Start.2 ++ r.2.flatten) = [0, 1] ∧
+    r.1.o.db.events = [] ∧ r.1.o.db.overflown = false ∧ r1.1.o.db.overflown = false :=
+  @Dnp3.Proofs.C02Events.events_at_least_once_counterexample 
+
+
+/-- the hypothesis of `release_needs_awaited_confirm` is satisfiable: the outstation of the D32 run, before the last
+    op, awaits the confirm of the fragment with sequence number 0 that carries records 0 and 1; on `C0 00` it
+    releases both -/
+example :
+    OOut.cb (.eventCleared 1) ∈
+      (Outstation.step {} (Pair.run d32Start.1 d32Ops.dropLast).1.o (.rx 1 1024 [0xC0, 0])).2 := by
+  have h : Cb.eventCleared 1 ∈ cbs (Outstation.step {} (Pair.run d32Start.1 d32Ops.dropLast).1.o (.rx 1 1024 [0xC0, 0])).2 := by
+    decide +kernel
+  unfold cbs at h
+  obtain ⟨o, ho, e⟩ := List.mem_filterMap.mp h
+  cases o <;> simp at e
+  subst e
+  exact ho
+/-- a decidable freshness check on the group history of a run without `cut` / `inject` — "every solicited response
+    handed to the master was transmitted after the request the master sent last" (`noLateResponse`; the `k`-th payload
+    handed to the master is the `k`-th payload the outstation transmitted): it fails on the D32 run and holds on the
+    same run without the stall.  It is the run-level reading of (L1) for solicited responses; that it implies (L1)
+    is NOT proved -/
+example :
+    noLateResponse (d32Start.2 ++ (Pair.run d32Start.1 d32Ops).2.flatten) = false ∧
+    noLateResponse (d32Start.2 ++ (Pair.run d32Start.1
+      (d32Ops.filter fun op => match op with | .setHold .. => false | _ => true)).2.flatten) = true :=
+  ⟨by decide +kernel, by decide +kernel⟩
+
+end Reach
+
+section MasterSide
+open Dnp3 Dnp3.Master Dnp3.Proofs.Master Dnp3.Proofs.C02Master Dnp3.Proofs.C02SeriesMaster Dnp3.Proofs.C02MasterQuiet
+
+/-! ## § master: the master session model, step level -/
+
+/-- **one step of the master session model on a NON-FINAL fragment of the answer** (FIR iff first, CON, the
+    expected sequence number, acceptable IIN2, parsable objects): exactly the delivery bracket and the CONFIRM
+    are emitted, and the master waits for the next fragment with the next sequence number -/
+theorem step_read_nonfinal (s : MState) (dest : Nat) (t : ReadTask) (seq : Nat) (isFirst : Bool)
+    (c i1 i2 : Nat) (objs : List Nat) (hs : List ObjHdr)
+    (hw : MWait s dest t seq isFirst)
+    (hctrl : AppCtrl.ofNat c = ⟨isFirst, false, true, false, seq⟩)
+    (hi2 : i2 &&& 7 = 0)
+    (hparse : parseRespObjects objs.length objs = some hs)
+    (hsrc : dest < 0xFFF0) (hlen : 4 + objs.length ≤ 2048) :
+    ∃ s', Master.step s (.rx dest masterAddr ([c, 0x81, i1, i2] ++ objs)) =
+        (s', [.deliverBegin (whoOf dest t) (rtOf t) (AppCtrl.ofNat c).toNat i1 i2] ++
+          hs.flatMap (headerCalls (whoOf dest t)) ++ [.deliverEnd (whoOf dest t) (rtOf t), .tx dest [0xC0 + seq, 0]]) ∧
+      MWait s' dest t (seq4Next seq) false :=
+  @Dnp3.Proofs.C02SeriesMaster.step_read_nonfinal s dest t seq isFirst c i1 i2 objs hs hw hctrl hi2 hparse hsrc hlen
+
+
+/-- **one step of the master session model on anything but a received application fragment emits neither a
+    delivery nor a CONFIRM** -/
+theorem master_step_quiet (s : MState) (inp : MInput) (hin : ∀ src dst data, inp ≠ .rx src dst data) :
+    Quiet (s, []) (Master.step s inp) :=
+  @Dnp3.Proofs.C02MasterQuiet.step_quiet s inp hin
+
+/-- … and it is not dropped when it is addressed to the master, comes from a unicast address, is not empty and
+    fits the receive buffer -/
+theorem master_step_rx_quiet (s : MState) (src : Nat) (frag : List Nat)
+    (hsrc : src < 0xFFF0) (hne : frag.isEmpty = false) (hlen : frag.length ≤ 2048) :
+    Quiet (onFragment (s, []) src frag).acc (Master.step s (.rx src masterAddr frag)) :=
+  @Dnp3.Proofs.C02MasterQuiet.step_rx_not_dropped_quiet s src frag hsrc hne hlen
+
+/-- **the confirms of one step of the master session model**: none, unless the input is an application fragment
+    that reaches the session and parses as a response — then exactly `expectedConfirms` (the READ rule, the
+    non-READ rule or the unsolicited rule of C15 `confirm_exactly_when`) -/
+theorem master_step_confirms (s : MState) (inp : MInput) :
+    confirmsOf (Master.step s inp).2 =
+      (match inp with
+       | .rx src dst frag =>
+         if dst ≠ masterAddr ∨ src ≥ 0xFFF0 ∨ frag.isEmpty = true ∨ frag.length > 2048 then []
+         else (match parseResponse frag with
+           | some r => expectedConfirms s src r
+           | none => [])
+       | _ => []) :=
+  @Dnp3.Proofs.C02MasterQuiet.step_confirms s inp
+
+
+/-- a CONFIRM emitted by one step of the master session model answers the application fragment received in that step -/
+theorem master_confirm_means_accepted (s : MState) (inp : MInput) (d c : Nat)
+    (h : (d, c) ∈ confirmsOf (Master.step s inp).2) :
+    ∃ src frag r, inp = .rx src masterAddr frag ∧ src < 0xFFF0 ∧ frag.isEmpty = false ∧ frag.length ≤ 2048 ∧
+      parseResponse frag = some r ∧ (d, c) ∈ expectedConfirms s src r :=
+  @Dnp3.Proofs.C02EventsMaster.master_confirm_means_accepted s inp d c h
+
+/-- **a solicited CONFIRM during a READ means: accepted, delivered, then confirmed.**  The master waits for a
+    fragment of the answer to a READ; one step emits the solicited confirm `[0xC0 + seq, 0]` to `dest`.  Then the
+    input was a fragment from `dest` that parses as a solicited response with CON which `process_read_response`
+    accepted, and the outputs of the step are: `deliverBegin`, the handler calls of EVERY parsed object header of
+    that fragment (`headerCalls`, in order), `deliverEnd`, the CONFIRM, followed by outputs that are neither
+    deliveries nor confirms. -/
+theorem read_confirm_delivered (s : MState) (dest : Nat) (t : ReadTask) (seq dl : Nat) (isFirst : Bool) (inp : MInput)
+    (hm : s.mode = .waitRead dest t seq isFirst dl)
+    (h : (dest, 0xC0 + seq) ∈ confirmsOf (Master.step s inp).2) (hseq : seq < 16) :
+    ∃ frag r hs fin l, inp = .rx dest masterAddr frag ∧ parseResponse frag = some r ∧ r.unsol = false ∧
+      r.ctrl.con = true ∧ r.ctrl.seq = seq ∧ r.objects = some hs ∧
+      processReadResponse dest seq isFirst (s.getAssoc dest).isSome dest r = .accept true fin ∧
+      (Master.step s inp).2 = [.deliverBegin (whoOf dest t) (rtOf t) r.ctrl.toNat r.iin1 r.iin2] ++
+        hs.flatMap (headerCalls (whoOf dest t)) ++ [.deliverEnd (whoOf dest t) (rtOf t), .tx dest [0xC0 + seq, 0]] ++ l ∧
+      ∀ o ∈ l, QuietOut o :=
+  @Dnp3.Proofs.C02EventsMaster.read_confirm_delivered s dest t seq dl isFirst inp hm h hseq
+
+
+/-- hypotheses of `read_confirm_delivered`: the master of `ovfDemo` waits for the first fragment of a READ with
+    sequence number 0; on the non-final fragment `ovfFrag` the step emits the confirm `C0 00` -/
+example : ovfDemo.mode = .waitRead 1024 (.poll 0 7) 0 true 5000 ∧
+    (1024, 0xC0 + 0) ∈ confirmsOf (Master.step ovfDemo (.rx 1024 1 ovfFrag)).2 := by
+  refine ⟨rfl, ?_⟩
+  decide +kernel
+
+/-- hypothesis of `step_read_nonfinal`: `MWait` for that state -/
+example : MWait ovfDemo 1024 (.poll 0 7) 0 true := ⟨⟨5000, rfl⟩, ⟨_, rfl, rfl⟩, by decide⟩
+
+example : ∀ src dst data, MInput.tick 5000 ≠ .rx src dst data := by intro _ _ _ h; cases h
+
+/-- hypotheses of `master_step_rx_quiet`: a unicast source, a non-empty fragment that fits -/
+example : (1024 : Nat) < 0xFFF0 ∧ ovfFrag.isEmpty = false ∧ ovfFrag.length ≤ 2048 := by decide
+
+end MasterSide
 end Dnp3.Props.C02
